@@ -114,6 +114,8 @@ def ops(D):
     add("rvalue_view_assign_constptr_view", "Sub& v, multi::subarray<Tracked, DD, Tracked const*> const& w", "std::move(v) = w;", {0: "view", 1: "view"}, "view")
     add("view_swap", "Sub& v, Sub& w", "swap(std::move(v), std::move(w));", {0: "view", 1: "view"}, "view")
     add("view_elements_assign", "Sub& v, CSub const& w", "v.elements() = w.elements();", {0: "view", 1: "view"}, "view")
+    add("view_elements_assign_same", "Sub& v, Sub& w", "v.elements() = w.elements();", {0: "view", 1: "view"}, "view")
+    add("named_view_assign_temporary_view", "Sub& v, Arr& b", "v = b();", {0: "view", 1: "live"}, "view")
     # what the standard algorithms do with dereferenced (proxy) iterators (C03)
     add("iter_move_assign", "It it, It jt", "*it = std::move(*jt);", {}, "view", "C03")
     add("iter_assign_value", "It it, multi::array<Tracked, DD>& val", "*it = std::move(val);", {}, "view", "C03")
